@@ -499,6 +499,13 @@ impl<'a> VisitMut for Rewriter<'a> {
                     None
                 }
             }
+            Expr::Await(a) if r27_drain_target(&a.base).is_some() => {
+                // R27: `stream::poll_fn(move |cx| RX.poll_recv(cx)).collect::<Vec<T>>().await` - polling the receiver until it
+                // reports `None` and keeping every item - becomes `vx_drain_until_closed(RX)` (assumed: everything buffered, in order)
+                let rx = r27_drain_target(&a.base).unwrap();
+                self.fired.push("R27-drain-receiver-until-closed".into());
+                Some(parse_quote! { vx_drain_until_closed(#rx) })
+            }
             Expr::Await(a) => {
                 let inner = &a.base;
                 self.fired.push("R6-await".into());
@@ -831,6 +838,26 @@ impl<'a> VisitMut for Rewriter<'a> {
         }
         visit_mut::visit_expr_closure_mut(self, c);
     }
+}
+
+/// R27 shape test: `<path ending in poll_fn>(move |c| RX.poll_recv(c)).collect::<Vec<_>>()` with RX a plain identifier
+fn r27_drain_target(e: &Expr) -> Option<Ident> {
+    let Expr::MethodCall(mc) = e else { return None };
+    if mc.method != "collect" || !mc.args.is_empty() { return None; }
+    let tf = mc.turbofish.as_ref()?.to_token_stream().to_string().replace(' ', "");
+    if !tf.starts_with("::<Vec<") { return None; }
+    let Expr::Call(c) = &*mc.receiver else { return None };
+    let Expr::Path(fp) = &*c.func else { return None };
+    if fp.path.segments.last().map(|s| s.ident != "poll_fn").unwrap_or(true) || c.args.len() != 1 { return None; }
+    let Expr::Closure(cl) = &c.args[0] else { return None };
+    if cl.inputs.len() != 1 { return None; }
+    let Pat::Ident(cx) = &cl.inputs[0] else { return None };
+    let Expr::MethodCall(inner) = &*cl.body else { return None };
+    if inner.method != "poll_recv" || inner.args.len() != 1 { return None; }
+    let Expr::Path(arg) = &inner.args[0] else { return None };
+    if arg.path.get_ident() != Some(&cx.ident) { return None; }
+    let Expr::Path(rx) = &*inner.receiver else { return None };
+    rx.path.get_ident().cloned()
 }
 
 pub fn apply_all(block: &mut Block, item: &Value, fired: &mut Vec<String>, name: &str) {
